@@ -4,7 +4,9 @@ Stages: proofs (Properties_C10.v) -> correspondence of the Coq model (vm_compute
   (1) expressions.lexer.tokenize / parser.parse / expressions.evaluate on generated expression strings x contexts,
   (2) core.transforms.resolve_pointer (+ the RFC 6901 reference against an independent strict evaluator written here),
       APIOperation.operation_reference / get_operation_by_reference (escape / unescape),
-  (3) make_response_filter / make_response_matcher on generated response keys x status codes,
+  (3) make_response_filter / make_response_matcher on generated response keys x status codes, and the WIRING of the real
+      create_state_machine (schema.as_state_machine()._response_matchers) on generated operations whose links sit on a subset of
+      the documented keys vs Model machine_bundle,
   (4) OpenApiLink.extract + into_step_input on stub outputs with a target operation whose generated values are constants,
 -> oracle search: (a) property-level oracles on the same inputs (RFC 6901, grammar membership, OpenAPI key meaning),
   (b) a live state machine run against a scripted loopback API: every request to a link target must carry the values
@@ -693,6 +695,7 @@ def run(chk: core.Check):
     _timed(chk, stage_expressions, rng, (650 if quick else 9000))
     _timed(chk, stage_pointers, rng, (450 if quick else 6000))
     _timed(chk, stage_status, rng, (300 if quick else 3000))
+    _timed(chk, stage_machine, rng, (80 if quick else 600))
     _timed(chk, stage_links, rng, (30 if quick else 500))
     for f in chk.findings:
         chk.known(f, witness_fails(f["witness"]))
@@ -1007,6 +1010,115 @@ def stage_status(chk, rng, n):
         agree += 1
         chk.count("status:" + ("malformed_key" if raised else "ok"))
     chk.stages["correspondence_status"] = {"cases": len(cases), "agree": agree}
+
+
+MACHINE_KEYS = ["200", "201", "204", "2XX", "2xx", "20X", "404", "409", "4XX", "400", "500", "503", "5XX", "default", "default", "default", "XXX", "3XX"]
+MACHINE_CODES = [200, 201, 204, 205, 299, 300, 302, 400, 404, 409, 418, 499, 500, 503, 599, 100, 600, 99]
+
+
+def machine_schema(op: list):
+    """POST /src documents the keys of `op` in order; key i carries op[i][1] links (to distinct target operations)."""
+    import schemathesis
+
+    responses = {}
+    paths = {}
+    t = 0
+    for key, n in op:
+        links = {}
+        for _ in range(n):
+            t += 1
+            links[f"L{t}"] = {"operationId": f"t{t}", "parameters": {"query.c": "$statusCode"}}
+            paths[f"/t{t}"] = {"get": {"operationId": f"t{t}", "parameters": [{"name": "c", "in": "query", "schema": {"type": "string"}}],
+                                       "responses": {"200": {"description": "ok"}}}}
+        responses[key] = {"description": "d", **({"links": links} if links else {})}
+    paths["/src"] = {"post": {"operationId": "src", "responses": responses}}
+    schema = schemathesis.openapi.from_dict({"openapi": "3.0.2", "info": {"title": "m", "version": "1"}, "paths": paths})
+    schema.configure(base_url="http://127.0.0.1:1")
+    return schema
+
+
+def gen_opdef(rng):
+    keys = list(dict.fromkeys(rng.sample(MACHINE_KEYS, rng.choice([1, 2, 3, 4, 6]))))
+    op = [[k, rng.choice([0, 0, 1, 1, 2])] for k in keys]
+    if all(n == 0 for _, n in op):
+        op[rng.randrange(len(op))][1] = 1
+    if rng.random() < 0.5 and "default" in keys:
+        # the situation that needs the documented keys: default carries a link, some other documented key does not
+        for item in op:
+            if item[0] == "default":
+                item[1] = max(item[1], 1)
+        others = [item for item in op if item[0] != "default"]
+        if others:
+            rng.choice(others)[1] = 0
+    return op
+
+
+def impl_machine_bundles(op, codes):
+    """Through the real create_state_machine: the bundle each status code is stored in (None = in no link bundle)."""
+    from schemathesis.specs.openapi.stateful import make_response_filter
+
+    make_response_filter.cache_clear()
+    schema = machine_schema(op)
+    machine = schema.as_state_machine()
+    label = "POST /src"
+    matcher = machine._response_matchers.get(label)
+    out = []
+    for code in codes:
+        if matcher is None:
+            out.append(None)
+            continue
+        name = matcher(_Stub(code))
+        if name is None:
+            out.append(None)
+        else:
+            assert name.startswith(label + " -> "), name
+            out.append(name[len(label + " -> "):])
+    return out, sorted(machine.bundles)
+
+
+def stage_machine(chk, rng, n):
+    cases = [c["op"] for c in corpus_cases() if c.get("kind") == "machine"]
+    n_corpus = len(cases)
+    while len(cases) < n + n_corpus:
+        cases.append(gen_opdef(rng))
+    exprs = []
+    for op in cases:
+        o = clist([ctuple(cstr(k), f"{int(nl)}%nat") for k, nl in op], "(str * nat)")
+        exprs.append("map (fun c => machine_bundle %s c) %s" % (o, clist([cZ(c) for c in MACHINE_CODES], "Z")))
+    model = coq_eval(exprs)
+    stats = {"operations": 0, "corpus": n_corpus, "status_codes_each": len(MACHINE_CODES), "default_with_linkless_documented_key": 0, "responses_in_a_bundle": 0}
+    for op, m in zip(cases, model):
+        canon = {"op": op}
+        stats["operations"] += 1
+        chk.seen(canon, True)
+        keys = [k for k, _ in op]
+        has_default_link = any(k == "default" and nl for k, nl in op)
+        linkless = [k for k, nl in op if k != "default" and not nl]
+        stats["default_with_linkless_documented_key"] += bool(has_default_link and linkless)
+        try:
+            impl, bundles = impl_machine_bundles(op, MACHINE_CODES)
+        except Exception as exc:  # noqa: BLE001
+            chk.disagree("create_state_machine raised on a well-formed operation", canon, f"{type(exc).__name__}: {exc}"[:200], "machine_bundle is total here")
+            continue
+        mod = [None if x is None else pstr(x[1]) for x in m]
+        if impl != mod:
+            bad = [(c, a, b) for c, a, b in zip(MACHINE_CODES, impl, mod) if a != b][:5]
+            chk.disagree("create_state_machine response matcher vs Model_C10.machine_bundle", canon, {"code,impl,model": bad}, None)
+        # ---- oracle (independent of the model): a response is stored only under a key that carries links and that it matches,
+        # where default means: no other DOCUMENTED key matches
+        with_links = {k for k, nl in op if nl}
+        for code, b in zip(MACHINE_CODES, impl):
+            if b is None:
+                continue
+            stats["responses_in_a_bundle"] += 1
+            if b not in with_links:
+                chk.fail("response stored in a bundle of a key without links", {"op": op, "code": code}, b)
+            elif not spec_matches(b, keys, code):
+                chk.fail("a link would be followed from a response whose status does not match the link's response key "
+                         "(default = no other documented code)", {"op": op, "code": code}, {"bundle": b, "documented": keys})
+        if stats["operations"] % 15 == 1:
+            chk.sample({"operation_responses": op, "codes": MACHINE_CODES, "bundles": impl})
+    chk.stages["correspondence_state_machine_wiring"] = stats
 
 
 # ----------------------------------------------------------------------------------------
@@ -1356,6 +1468,7 @@ def live_schema():
                         "4XX": {"description": "client error", "links": {
                             "B": {"operationId": "putB", "requestBody": {"code": "$statusCode", "err": "$response.body#/error", "m": "$method", "lit": 5},
                                   "x-schemathesis": {"merge_body": False}}}},
+                        "503": {"description": "documented, carries no link: the default link must not be followed from it"},
                         "default": {"description": "other", "links": {
                             "C": {"operationId": "putC", "requestBody": {"st": "$statusCode", "k-{$statusCode}": ["$response.body#/w", 1]}}}},
                     },
@@ -1410,7 +1523,7 @@ def stage_live(chk, rng, runs):
 
     stats = {"runs": 0, "source_exchanges": 0, "link_requests": 0, "by_link": {}, "unresolvable_cases": 0}
     for run_no in range(runs):
-        script = [rng.choice([201, 201, 201, 404, 400, 422, 500, 200, 503, "201-noid"]) for _ in range(400)]
+        script = [rng.choice([201, 201, 201, 404, 400, 422, 500, 200, 503, 503, "201-noid"]) for _ in range(400)]
         exchanges = []
         lock = threading.Lock()
 
@@ -1498,8 +1611,8 @@ def stage_live(chk, rng, runs):
                             explained = True
                             break
                     else:
-                        if st == 201 or 400 <= st < 500:
-                            continue
+                        if st == 201 or 400 <= st < 500 or st == 503:
+                            continue  # documented codes: never a source of the default link
                         if "w" in ex["body"]:
                             want = {"gen": "g", "st": str(st), f"k-{st}": [ex["body"]["w"], 1]}
                         else:
